@@ -166,8 +166,38 @@ func c16Gen(rng *rand.Rand) c16Dir {
 	return d
 }
 
+// c16GenLarge: directories with hundreds of entries (several readdir batches) and at most one defect.
+func c16GenLarge(rng *rand.Rand) c16Dir {
+	var d c16Dir
+	n := 129 + rng.Intn(500)
+	used := map[string]bool{}
+	contents := []string{"supported1", "supported2", "supported1", "supported2", "supported1", "unknown-set", "malformed", "empty"}
+	d.Entries = append(d.Entries, c16Entry{Name: "root.admin", Content: "supported1"})
+	used["root"] = true
+	for len(d.Entries) < n {
+		name := ref.ValidName(rng)
+		if used[name] {
+			continue
+		}
+		used[name] = true
+		ext := []string{".user", ".admin", ".user"}[rng.Intn(3)]
+		d.Entries = append(d.Entries, c16Entry{Name: name + ext, Content: contents[rng.Intn(len(contents))]})
+	}
+	switch rng.Intn(4) {
+	case 0, 1: // one name with both extensions
+		e := d.Entries[rng.Intn(len(d.Entries))]
+		ext := filepath.Ext(e.Name)
+		other := map[string]string{".user": ".admin", ".admin": ".user"}[ext]
+		d.Entries = append(d.Entries, c16Entry{Name: strings.TrimSuffix(e.Name, ext) + other, Content: "supported1"})
+	case 2: // one foreign file
+		d.Entries = append(d.Entries, c16Entry{Name: "notes" + []string{".txt", "", ".USER", ".user~"}[rng.Intn(4)], Content: "malformed"})
+	}
+	d.Tmp = []string{"absent", "dir", "dir-with-leftover"}[rng.Intn(3)]
+	return d
+}
+
 func c16() {
-	R := vr.New("C16", "predicate", "generated directories (1-40 entries from valid user names x extensions {.user,.admin,.txt,none,.USER,.admin.bak,...} x contents {supported (both algorithms), unknown set, other algorithm id, malformed, empty, sub-directory} x duplicates across extensions x .tmp {absent, directory, file, directory with leftover}, creation order shuffled): Check is compared with a reference predicate (sandwich on 'supported'); Init must succeed exactly on empty directories (ignoring .tmp) and produce a valid store; the built binary must exit 3 for every command except init/check on directories failing the predicate, without changing them, and run them with --do-check=false. Non-trivial: every directory other than a single supported admin; distinct by directory listing+contents")
+	R := vr.New("C16", "predicate", "generated directories (1-40 entries, and 129-630 entries with at most one defect, from valid user names x extensions {.user,.admin,.txt,none,.USER,.admin.bak,...} x contents {supported (both algorithms), unknown set, other algorithm id, malformed, empty, sub-directory} x duplicates across extensions x .tmp {absent, directory, file, directory with leftover}, creation order shuffled): Check is compared with a reference predicate (sandwich on 'supported'); Init must succeed exactly on empty directories (ignoring .tmp) and produce a valid store; the built binary must exit 3 for every command except init/check on directories failing the predicate, without changing them, and run them with --do-check=false. Non-trivial: every directory other than a single supported admin; distinct by directory listing+contents")
 	defer R.Write()
 	rng := R.Rand("c16")
 	root := filepath.Join(workDir(), "c16")
@@ -195,6 +225,9 @@ func c16() {
 		}
 	}
 	dirs = append(dirs, c16Dir{Tmp: "absent"}, c16Dir{Tmp: "dir"}, c16Dir{Tmp: "file"}, c16Dir{Tmp: "dir-with-leftover"})
+	for i := 0; i < vr.Pick(24, 240); i++ {
+		dirs = append(dirs, c16GenLarge(rng))
+	}
 	for len(dirs) < n {
 		dirs = append(dirs, c16Gen(rng))
 	}
@@ -215,6 +248,9 @@ func c16() {
 		if pan != "" {
 			R.Violate("c16:panic:check", pan, id, wit)
 			continue
+		}
+		if len(cd.Entries) > 128 {
+			R.Count("large_directories", 1)
 		}
 		if acc {
 			R.Count("reference_accepts", 1)
